@@ -101,7 +101,20 @@ def run(ctx, out):
         ops.append(f"read {enum['name']} {C.hexs(b''.join(p for p, _ in pk) + tail)}")
         want.append(" ; ".join([o for _, o in pk] + [f"err io:eof n={len(tail)}"]))
         kinds.append("reader:one-chunk")
+        # … and with the FIRST packet arriving in two pieces, the second piece in one chunk with everything that follows:
+        # a reader that collects a body piece by piece must still stop at the announced length
+        p0 = pk[0][0]
+        hdr = 5 if p0[2] == 0xff else 3
+        if len(p0) - hdr >= 2:
+            for c in sorted({hdr, hdr + 1, rng.randrange(hdr + 1, len(p0)), len(p0) - 1}):
+                if hdr <= c < len(p0):
+                    whole = b"".join(p for p, _ in pk) + tail
+                    ops.append(f"read {enum['name']} {C.hexs(whole[:c])}|{C.hexs(whole[c:])}")
+                    want.append(" ; ".join([o for _, o in pk] + [f"err io:eof n={len(tail)}"]))
+                    kinds.append("reader:split-body")
     impl, model = ctx.pair(ops)
+    from ..flow import history_check
+    history_check(ctx, out, ops, impl, "packet decoder")
     out.compare("dec+suffix", ops, impl, model)
     out.evaluations = len(ops)
     for o, r, w, kd in zip(ops, impl, want, kinds):
@@ -116,6 +129,6 @@ def run(ctx, out):
             out.oracle_failures.append({"op": o, "observed": "…" + r[max(0, i - 60):i + 200], "expected": "…" + w[max(0, i - 60):i + 200], "key": o[:160],
                                         "what": f"appended bytes ({kd}) change the decoded value or are not handed back untouched"})
     out.rule = (f"{len(packets)} canonical packets of all {len(cmds)} command types x suffixes (empty, single bytes incl. all 256 for every 25th packet, valid packets, random up to 64 bytes) and junk spliced "
-                "(a foreign tag number incl. 00, or 1-4 filler-looking 00 bytes) into the APDU body behind the last container; every element of every nested container (1-3 levels down) moved in front of its siblings; at the packet reader, 2-4 reply packets (+ dangling bytes) delivered in ONE chunk are returned one by one; value, remainder (= suffix) and re-encoding compared with the no-suffix result on the implementation, and implementation = model. "
+                "(a foreign tag number incl. 00, or 1-4 filler-looking 00 bytes) into the APDU body behind the last container; every element of every nested container (1-3 levels down) moved in front of its siblings; at the packet reader, 2-4 reply packets (+ dangling bytes) delivered in ONE chunk — also with the first packet's body split and its second piece in one chunk with the rest — are returned one by one; value, remainder (= suffix) and re-encoding compared with the no-suffix result on the implementation, and implementation = model. "
                 "non-trivial = distinct (packet, suffix) inputs")
     out.samples = [ops[1][:300], {"op": ops[-1][:120], "impl": impl[-1][-120:]}]
